@@ -48,27 +48,28 @@
     unsigned long k = (unsigned long)(pos - v->d); T val = *x; for (unsigned long i = v->n; i > k; --i) v->d[i] = v->d[i - 1]; v->d[k] = val; v->n = v->n + 1; return pos; }
 #else
 #define VEC_DECL(T, V) VEC_COMMON(T, V) \
-  static inline void V##__ctor_0(V *v) { v->d = (T*)verif_new(sizeof(T)); v->n = 0; } \
+  static inline void V##__ctor_0(V *v) { v->d = (T*)verif_new(0); v->n = 0; } \
   void V##__push_back(V *v, const T *x) \
     __CPROVER_requires(v->n < VEC_CAP) \
     __CPROVER_ensures(v->n == __CPROVER_old(v->n) + 1 && __CPROVER_is_fresh(v->d, v->n * sizeof(T))) \
     __CPROVER_assigns(v->d, v->n); \
   void V##__ctor_1(V *v, unsigned long n) \
     __CPROVER_requires(n <= VEC_CAP) \
-    __CPROVER_ensures(v->n == n && __CPROVER_is_fresh(v->d, (n == 0 ? 1 : n) * sizeof(T))) \
+    __CPROVER_ensures(v->n == n && __CPROVER_is_fresh(v->d, n * sizeof(T))) \
     __CPROVER_assigns(v->d, v->n); \
   void V##__ctor_2(V *v, unsigned long n, const T *x) \
     __CPROVER_requires(n <= VEC_CAP) \
-    __CPROVER_ensures(v->n == n && __CPROVER_is_fresh(v->d, (n == 0 ? 1 : n) * sizeof(T))) \
+    __CPROVER_ensures(v->n == n && __CPROVER_is_fresh(v->d, n * sizeof(T))) \
     __CPROVER_assigns(v->d, v->n); \
   void V##__ctor_copy(V *v, const V *o) \
     __CPROVER_requires(o->n <= VEC_CAP) \
-    __CPROVER_ensures(v->n == o->n && __CPROVER_is_fresh(v->d, (v->n == 0 ? 1 : v->n) * sizeof(T))) \
+    __CPROVER_ensures(v->n == o->n && __CPROVER_is_fresh(v->d, v->n * sizeof(T))) \
     __CPROVER_assigns(v->d, v->n); \
   void V##__resize(V *v, unsigned long n) \
     __CPROVER_requires(n <= VEC_CAP) \
-    __CPROVER_ensures(v->n == n && __CPROVER_is_fresh(v->d, (n == 0 ? 1 : n) * sizeof(T))) \
+    __CPROVER_ensures(v->n == n && __CPROVER_is_fresh(v->d, n * sizeof(T))) \
     __CPROVER_assigns(v->d, v->n);
 #endif
-#define VEC_FRESH(v) ((v)->n <= VEC_CAP && __CPROVER_is_fresh((v)->d, ((v)->n == 0 ? 1 : (v)->n) * sizeof(*(v)->d)))
+/* an empty vector owns a zero-sized object: reading element 0 of it is a failing pointer check */
+#define VEC_FRESH(v) ((v)->n <= VEC_CAP && __CPROVER_is_fresh((v)->d, (v)->n * sizeof(*(v)->d)))
 #endif
